@@ -13,6 +13,17 @@ type operatorHandler func(d *dataTreeNavigator, context Context, expressionNode 
 type compoundCalculation func(lhs *ExpressionNode, rhs *ExpressionNode) *ExpressionNode
 
 func compoundAssignFunction(d *dataTreeNavigator, context Context, expressionNode *ExpressionNode, calculation compoundCalculation) (Context, error) {
+	// each node of the context is updated on its own: the right-hand side of `.a += .b` is
+	// read from the node whose .a is being updated, not from every node of the context
+	if context.MatchingNodes.Len() > 1 {
+		for el := context.MatchingNodes.Front(); el != nil; el = el.Next() {
+			if _, err := compoundAssignFunction(d, context.SingleChildContext(el.Value.(*CandidateNode)), expressionNode, calculation); err != nil {
+				return Context{}, err
+			}
+		}
+		return context, nil
+	}
+
 	lhs, err := d.GetMatchingNodes(context, expressionNode.LHS)
 	if err != nil {
 		return Context{}, err
